@@ -531,6 +531,12 @@ func runCase(c Case, st *Stats) *ev.Failure {
 			switch s.Ill {
 			case "v6_in_ipv4":
 				r[1] = ref.Value{B: net.ParseIP("2001:db8::2")}
+			case "almost_mapped_in_ipv4": // not ::ffff:a.b.c.d: bytes 8..9 are not zero
+				r[1] = ref.Value{B: net.ParseIP("::1:ffff:c0a8:101")}
+			case "almost_mapped2_in_ipv4": // bytes 0..7 are not zero
+				r[1] = ref.Value{B: net.ParseIP("1::ffff:c0a8:101")}
+			case "ff_prefix_in_ipv4": // ::fffe:a.b.c.d
+				r[1] = ref.Value{B: net.ParseIP("::fffe:c0a8:101")}
 			case "nil_in_ipv4":
 				r[1] = ref.Value{B: nil}
 			case "5bytes_in_ipv6":
@@ -946,7 +952,7 @@ func runTransient(_ int) *ev.Failure {
 	return nil
 }
 
-var ills = []string{"v6_in_ipv4", "nil_in_ipv4", "5bytes_in_ipv6", "nil_in_ipv6", "mac_len_5", "mac_len_8", "mac_nil", "fixed_octets_short", "fixed_octets_long", "v4_in_ipv6", "v4mapped_in_ipv4"}
+var ills = []string{"v6_in_ipv4", "nil_in_ipv4", "5bytes_in_ipv6", "nil_in_ipv6", "mac_len_5", "mac_len_8", "mac_nil", "fixed_octets_short", "fixed_octets_long", "v4_in_ipv6", "v4mapped_in_ipv4", "almost_mapped_in_ipv4", "almost_mapped2_in_ipv4", "ff_prefix_in_ipv4"}
 
 func genCase(t *rapid.T) Case {
 	c := Case{Proto: rapid.SampledFrom([]string{"tcp", "udp"}).Draw(t, "proto")}
